@@ -614,6 +614,23 @@ def build_scenarios(ck):
             for fault in (mk_fault("delay", 0), mk_fault("error", 6), mk_fault("drop_after", 0))[:ck.n(2, 3)]:
                 scs.append(gen_batch_api_scenario(rng, sid, ca, end, fault))
                 sid += 1
+    # (c') batches built with create_batch() OUTSIDE a transaction (before the first begin_transaction(), or between two
+    #      transactions) and submitted with send_batch() inside one: they belong to that transaction like any other
+    for end in ("abort", "commit"):
+        for nb in (1, 2):
+            sc = gen_batch_api_scenario(rng, sid, 0.05, end, mk_fault("delay", 0))
+            for txn in sc["instances"][0]["txns"]:
+                for items in txn["tasks"]:
+                    for it in items:
+                        it.pop("cancel_after", None)
+                    for it in items[:nb]:
+                        it["batch"] = True
+                        it["prebuilt"] = True
+                txn["await_sends"] = True
+                txn.pop("end_after", None)
+            sc["family"] = "batch-built-outside-transaction"
+            scs.append(sc)
+            sid += 1
     # (d) commit / abort issued while a batch that was sent once sits re-enqueued (retriable Produce error, slow
     #     metadata refresh)
     for ea in REENQ_END_AFTER:
